@@ -377,3 +377,495 @@ def accumulate_rule(run, rule, ast):
         if not ok:
             run.violation(rule, "generic_compiler::accumulate|%s" % fld, "the aggregated report field %s is fed from %s (%s)" % (fld, got[0] if got else "nothing", "as a flag" if got and got[1] else "as a count"),
                           (f["file"], got[2]["l"] if got else f["line"]))
+
+
+# ---------------------------------------------------------------------------
+# (4) class_map look-ups: projection key, null test, unknown-class report
+
+def _class_map_subscripts(f):
+    out = []
+    for n in astq.walk(f["body"]):
+        if n.get("k") == "CXXOperatorCallExpr" and n.get("oop") == "[]" and any(x.get("k") == "MemberExpr" and x.get("member") == "class_map" for x in astq.walk(n["c"][1])):
+            out.append(n)
+        if n.get("k") == "CXXMemberCallExpr" and re.search(r"::(find|at|count)$", n.get("callee") or "") and any(x.get("k") == "MemberExpr" and x.get("member") == "class_map" for x in astq.walk(n["c"][0])):
+            out.append(n)
+    return out
+
+
+def lookup_rules(run, r_proj, r_null, ast):
+    fs = by_name(ast, "augment_classes") + by_name(ast, "augment_methods")
+    if not fs:
+        raise common.AnalysisBroken("augment_classes / augment_methods not instantiated")
+    for f in fs:
+        subs = _class_map_subscripts(f)
+        for s in subs:
+            key = astq.strip(s["c"][2] if s.get("k") == "CXXOperatorCallExpr" else s["c"][1])
+            ok = key is not None and key.get("k") == "CallExpr" and (key.get("callee") or "").endswith("::type_index")
+            if r_proj:
+                run.instance(r_proj, "%s: class_map keyed by %s" % (short(f), astq.text(key)), (f["file"], s["l"]), ok=ok)
+                if not ok:
+                    run.violation(r_proj, "compiler::%s|class_map-key" % f["name"].split("::")[-1], "class_map is accessed with key %s, not with Policy::type_index(id)" % astq.text(key), (f["file"], s["l"]))
+        if not r_null:
+            continue
+        # by-value look-ups: `auto x = class_map[...]` with x a pointer
+        def rec(n):
+            if n.get("k") == "CompoundStmt":
+                cs = n.get("c") or []
+                for i, s in enumerate(cs):
+                    if s.get("k") == "DeclStmt":
+                        for d in s["decls"]:
+                            init = d.get("init")
+                            if init is None or d["type"].endswith("&"):
+                                continue
+                            sub = [x for x in astq.walk(init) if x in subs]
+                            if sub:
+                                check_null(f, d, sub[0], cs[i + 1:])
+            for c in astq.kids_nodup(n):
+                rec(c)
+
+        def check_null(f, d, sub, following):
+            key = astq.strip(sub["c"][2])
+            looked = astq.text(key["c"][1]) if key.get("k") == "CallExpr" and len(key.get("c") or []) > 1 else astq.text(key)
+            what = "%s: look-up of %s is null-tested before use, the null outcome reports that id and aborts" % (short(f), looked)
+            nxt = following[0] if following else None
+            problems = []
+            if nxt is None or nxt.get("k") != "IfStmt":
+                problems.append("the looked-up pointer `%s` is not tested right after the look-up" % d["name"])
+            else:
+                c = astq.strip(nxt["cond"])
+                isnull = (c.get("k") == "UnaryOperator" and c.get("op") == "!" and astq.strip(c["c"][0]).get("k") == "DeclRefExpr" and astq.strip(c["c"][0])["ref"]["did"] == d["did"])
+                if not isnull:
+                    problems.append("the statement after the look-up does not test `!%s`" % d["name"])
+                else:
+                    th = nxt["then"]
+                    assigns = [n for n in astq.walk(th) if n.get("k") == "BinaryOperator" and n.get("op") == "=" and astq.strip(n["c"][0]).get("k") == "MemberExpr" and astq.strip(n["c"][0]).get("member") == "type"]
+                    if not assigns or astq.text(assigns[0]["c"][1]) != looked:
+                        problems.append("the unknown_class_error does not carry the looked-up id %s (carries %s)" % (looked, astq.text(assigns[0]["c"][1]) if assigns else "nothing"))
+                    if not any(x.get("k") == "DeclStmt" and any("unknown_class_error" in dd["type"] for dd in x["decls"]) for x in astq.walk(th)):
+                        problems.append("no unknown_class_error is built")
+                    last = (th.get("c") or [None])[-1]
+                    if last is None or astq.strip(last).get("k") != "CallExpr" or astq.strip(last).get("callee") != "abort":
+                        problems.append("the null branch does not end in abort()")
+                    pol_has_handler = True
+                    calls_err = any(x.get("k") in ("CallExpr", "CXXOperatorCallExpr") and re.search(r"::error$|operator\(\)$", x.get("callee") or "") and any(
+                        y.get("k") in ("DeclRefExpr", "MemberExpr") and (astq.refname(y) or "").endswith("::error") for y in astq.walk(x)) for x in astq.walk(th))
+                    if not calls_err:
+                        problems.append("the policy's error handler is not called in the null branch")
+            run.instance(r_null, what, (f["file"], sub["l"]), ok=not problems)
+            for p in problems:
+                run.violation(r_null, "compiler::%s|%s" % (f["name"].split("::")[-1], d["name"]), p, (f["file"], sub["l"]))
+        rec(f["body"])
+
+
+# ---------------------------------------------------------------------------
+# (5) control-dependence whitelists in augment_classes
+
+def _cdep_conds(f, node):
+    cfg = astq.Cfg(f)
+    byid, _ = astq.index_nodes(f)
+    b = cfg.block_of.get(node["id"])
+    if b is None:
+        return None
+    out = []
+    for x in _transitive_cdeps(cfg, b):
+        cn = byid.get(cfg.blocks[x].get("cond"))
+        out.append((_classify_cond(cn, cfg.blocks[x]), cn, cfg.blocks[x]))
+    return out
+
+
+def merge_rules(run, r_bases, r_ids, ast):
+    for f in by_name(ast, "augment_classes"):
+        pushes = [n for n in astq.walk(f["body"]) if n.get("k") == "CXXMemberCallExpr" and (n.get("callee") or "").endswith("::push_back")]
+        tb = [n for n in pushes if any(x.get("k") == "MemberExpr" and x.get("member") == "transitive_bases" for x in astq.walk(n["c"][0]))
+              and astq.strip(n["c"][1]).get("k") == "DeclRefExpr"]
+        ti = [n for n in pushes if any(x.get("k") == "MemberExpr" and x.get("member") == "type_ids" for x in astq.walk(n["c"][0]))]
+        if r_bases:
+            if len(tb) != 1:
+                run.broken.append("%s: expected one push of a looked-up base into transitive_bases, found %d" % (short(f), len(tb)))
+            else:
+                cds = _cdep_conds(f, tb[0])
+                bad = []
+                for cls, cn, blk in cds or []:
+                    if cls in ("loop", "trace"):
+                        continue
+                    t = astq.text(cn) if cn else "?"
+                    mem = {x["ref"]["name"] for x in astq.walk(cn) if x.get("k") == "DeclRefExpr"} if cn else set()
+                    c0 = astq.strip(cn) if cn else {}
+                    if c0.get("k") == "BinaryOperator" and c0.get("op") == "!=" and {"rtc", "rtb"} <= {m.split("::")[-1] for m in mem}:
+                        continue        # the improper base (the class itself)
+                    if c0.get("k") == "UnaryOperator" and c0.get("op") == "!" and blk.get("termk") == "IfStmt":
+                        # null test of the looked-up base: its other outcome aborts (C15-update)
+                        continue
+                    bad.append(t)
+                run.instance(r_bases, "%s: every listed base of every registration record is recorded (only the class itself is dropped)" % short(f), (f["file"], tb[0]["l"]), ok=not bad)
+                for t in bad:
+                    run.violation(r_bases, "compiler::augment_classes|base-push-guard", "recording a listed base is skipped depending on `%s`: records of the same class are no longer merged completely" % t, (f["file"], tb[0]["l"]))
+        if r_ids:
+            if len(ti) != 1:
+                run.broken.append("%s: expected one push into type_ids, found %d" % (short(f), len(ti)))
+            else:
+                cds = _cdep_conds(f, ti[0])
+                bad = []
+                for cls, cn, blk in cds or []:
+                    if cls in ("loop", "trace"):
+                        continue
+                    if cn is not None and any(x.get("k") == "CallExpr" and (x.get("callee") or "").startswith("std::find<") for x in astq.walk(cn)):
+                        continue        # not yet in the list
+                    bad.append(astq.text(cn) if cn else "?")
+                run.instance(r_ids, "%s: every new id of a class is appended to its id list" % short(f), (f["file"], ti[0]["l"]), ok=not bad)
+                for t in bad:
+                    run.violation(r_ids, "compiler::augment_classes|id-push-guard", "appending an id to a class's id list depends on `%s`: a second id of an already known class is dropped" % t, (f["file"], ti[0]["l"]))
+
+
+# ---------------------------------------------------------------------------
+# (6) deferred type ids: one-shot resolution guarded by a flag
+
+def _enclosing(parent, n, kinds):
+    out = []
+    x = parent.get(n["id"])
+    while x is not None:
+        if x.get("k") in kinds:
+            out.append(x)
+        x = parent.get(x["id"])
+    return out
+
+
+def _in_subtree(root, n):
+    return any(x is n for x in astq.walk(root))
+
+
+def deferred_rules(run, r_oneshot, r_all, r_nonempty, ast):
+    fs = [f for f in by_name(ast, "resolve_static_type_ids") if any(x.get("k") == "CXXForRangeStmt" for x in astq.walk(f["body"]))]
+    if not fs:
+        raise common.AnalysisBroken("resolve_static_type_ids is not instantiated for a deferred-RTTI policy")
+    for f in fs:
+        byid, parent = astq.index_nodes(f)
+        # the resolving lambda
+        res = None
+        for n in astq.walk(f["body"]):
+            if n.get("k") == "DeclStmt":
+                for d in n["decls"]:
+                    if d.get("init") is not None and any(x.get("k") == "LambdaExpr" for x in astq.walk(d["init"])):
+                        res = d
+        if res is None:
+            run.broken.append("%s: resolving lambda not found" % short(f))
+            continue
+        calls = [n for n in astq.walk(f["body"]) if n.get("k") == "CXXOperatorCallExpr" and n.get("oop") == "()" and any(
+            x.get("k") == "DeclRefExpr" and x["ref"]["did"] == res["did"] for x in astq.walk(n["c"][1]))]
+        if len(calls) < 4:
+            run.broken.append("%s: only %d resolver calls found" % (short(f), len(calls)))
+
+        def flag_test(cond):
+            """(flag text, kind) if cond tests that a list / record is still unresolved"""
+            out = []
+
+            def rec(c):
+                c = astq.strip(c)
+                if c.get("k") == "BinaryOperator" and c.get("op") == "&&":
+                    rec(c["c"][0])
+                    rec(c["c"][1])
+                elif c.get("k") == "BinaryOperator" and c.get("op") == "==" and astq.affine(c["c"][1]) == {}:
+                    l = astq.strip(c["c"][0])
+                    if l.get("k") == "UnaryOperator" and l.get("op") == "*":
+                        out.append((astq.text(l), "word"))
+                elif c.get("k") == "UnaryOperator" and c.get("op") == "!":
+                    l = astq.strip(c["c"][0])
+                    if l.get("k") == "MemberExpr":
+                        out.append((astq.text(l), "bool"))
+                    elif l.get("k") == "UnaryOperator" and l.get("op") == "*":
+                        out.append((astq.text(l), "word"))
+            rec(cond)
+            return out
+        for call in calls:
+            arg = astq.strip(call["c"][2])
+            argt = astq.text(arg)
+            ifs = _enclosing(parent, call, ("IfStmt",))
+            loops = _enclosing(parent, call, ("CXXForRangeStmt",))
+            guard = None
+            for i in ifs:
+                if _in_subtree(i["then"], call):
+                    ft = flag_test(i["cond"])
+                    if ft:
+                        guard = (i, ft[0])
+                        break
+            what = "%s: resolve(%s)" % (short(f), argt)
+            if guard is None:
+                run.instance(r_oneshot, what + " is guarded by an 'unresolved' flag", (f["file"], call["l"]), ok=False)
+                run.violation(r_oneshot, "compiler::resolve_static_type_ids|unguarded|%s" % argt,
+                              "the deferred id %s is resolved on every update: on the second update the cell holds the id, which is then called as a function" % argt, (f["file"], call["l"]))
+                continue
+            gi, (flag, kind) = guard
+            # the flag must be set inside the guarded branch
+            sets = [n for n in astq.walk(gi["then"]) if n.get("k") == "BinaryOperator" and n.get("op") == "=" and astq.text(n["c"][0]) == flag]
+            ok1 = len(sets) >= 1
+            run.instance(r_oneshot, what + " is guarded by `%s` which is set once resolved" % flag, (f["file"], call["l"]), ok=ok1)
+            if not ok1:
+                run.violation(r_oneshot, "compiler::resolve_static_type_ids|flag-not-set|%s" % argt, "the flag `%s` guarding resolve(%s) is never set in the guarded branch" % (flag, argt), (f["file"], call["l"]))
+                continue
+            # the cell loop: the innermost range-for whose variable the argument refers to
+            cell_loop = None
+            for lp in loops:
+                if any(x.get("k") == "DeclRefExpr" and x["ref"]["did"] == lp["var"]["did"] for x in astq.walk(arg)):
+                    cell_loop = lp
+                    break
+            per_cell_flag = cell_loop is not None and any(
+                x.get("k") == "DeclRefExpr" and x["ref"]["did"] == cell_loop["var"]["did"] for s0 in sets for x in astq.walk(s0["c"][0]))
+            if cell_loop is not None and r_all and not per_cell_flag:
+                inside = any(_in_subtree(cell_loop["body"], s) for s in sets)
+                test_inside = _in_subtree(cell_loop["body"], gi)
+                ok2 = not inside
+                run.instance(r_all, what + ": the flag is set after the loop over all cells of the list, not inside it", (f["file"], call["l"]), ok=ok2)
+                if not ok2:
+                    run.violation(r_all, "compiler::resolve_static_type_ids|flag-set-in-loop|%s" % flag,
+                                  "`%s` is set inside the loop over the list's cells%s: only the first id of the list is resolved" % (flag, " (and tested there)" if test_inside else ""), (f["file"], sets[0]["l"]))
+            # lists that can be empty (class base lists) have no storage for the flag
+            if kind == "word" and r_nonempty and "last_base" in flag:
+                c = gi["cond"]
+                ok3 = any(x.get("k") == "BinaryOperator" and x.get("op") == "!=" and {"first_base", "last_base"} <= {y.get("member") for y in astq.walk(x) if y.get("k") == "MemberExpr"}
+                          for x in astq.walk(c)) or any(x.get("k") == "MemberExpr" and x.get("member") == "last_base" and astq.strip(c).get("op") == "&&" for x in astq.walk(astq.strip(c)["c"][0]) if astq.strip(c).get("k") == "BinaryOperator")
+                run.instance(r_nonempty, what + ": the flag word of a possibly empty base list is read only when the list is non-empty", (f["file"], gi["l"]), ok=ok3)
+                if not ok3:
+                    run.violation(r_nonempty, "compiler::resolve_static_type_ids|empty-list-flag", "`%s` is read without testing that the base list is non-empty: a class registered without bases has a null list end" % flag, (f["file"], gi["l"]))
+
+
+# ---------------------------------------------------------------------------
+# (7) type-id hash and publishers
+
+def _fn(ast, pattern):
+    rx = re.compile(pattern)
+    return [f for f in ast.funcs if f.get("body") and rx.search(f["name"])]
+
+
+def _idloops(f):
+    """(outer loop over [first,last), inner loop over type ids) pairs"""
+    out = []
+    for o in astq.walk(f["body"]):
+        if o.get("k") != "ForStmt":
+            continue
+        for i in astq.walk(o.get("body")):
+            if i.get("k") == "ForStmt" and i.get("init") is not None and any(x.get("k") == "CXXMemberCallExpr" and (x.get("callee") or "").endswith("::type_id_begin") for x in astq.walk(i["init"])) \
+                    and i.get("cond") is not None and any(x.get("k") == "CXXMemberCallExpr" and (x.get("callee") or "").endswith("::type_id_end") for x in astq.walk(i["cond"])):
+                oi, oc = o.get("init"), o.get("cond")
+                first_last = oi is not None and any(x.get("k") == "DeclRefExpr" and x["ref"].get("storage") == "param" for x in astq.walk(oi)) and \
+                    oc is not None and any(x.get("k") == "DeclRefExpr" and x["ref"].get("storage") == "param" for x in astq.walk(oc))
+                if first_last:
+                    out.append((o, i))
+    return out
+
+
+def _hash_expr(n):
+    """normal form of (id * hash_mult) >> hash_shift"""
+    n = astq.strip(n)
+    if n is None or n.get("k") != "BinaryOperator" or n.get("op") != ">>":
+        return None
+    l, r = astq.strip(n["c"][0]), astq.strip(n["c"][1])
+    if l.get("k") != "BinaryOperator" or l.get("op") != "*":
+        return None
+    ops = []
+    for o in l["c"]:
+        o = astq.strip(o)
+        nm = astq.refname(o)
+        if nm is None:
+            return None
+        ops.append("ID" if not nm.endswith("hash_mult") else "hash_mult")
+    rn = astq.refname(r)
+    return (tuple(sorted(ops)), (rn or "?").split("::")[-1])
+
+
+def hash_rules(run, r_accept, r_same, r_publish, r_checked, r_allids, ast):
+    # ---- hash_initialize(first, last, buckets)
+    his = [f for f in _fn(ast, r"fast_perfect_hash<.*>::hash_initialize<") if len(f["params"]) == 3]
+    if not his:
+        raise common.AnalysisBroken("fast_perfect_hash::hash_initialize(first, last, buckets) not instantiated")
+    hts = {re.sub(r"::hash_type_id$", "", f["name"]): f for f in _fn(ast, r"fast_perfect_hash<[^()]*>::hash_type_id$")}
+    for f in his:
+        loops = _idloops(f)
+        if r_allids:
+            run.instance(r_allids, "%s scans every id of every class of [first, last)" % short(f), (f["file"], f["line"]), ok=len(loops) == 1)
+            if len(loops) != 1:
+                run.violation(r_allids, "fast_perfect_hash::hash_initialize|id-loops", "the hash search does not iterate type_id_begin()..type_id_end() of every element of [first, last)", (f["file"], f["line"]))
+        if len(loops) != 1:
+            run.broken.append("%s: scan loops not recognised" % short(f))
+            continue
+        outer, inner = loops[0]
+        found = [d for n in astq.walk(f["body"]) if n.get("k") == "DeclStmt" for d in n["decls"] if d["type"] == "bool" and d["name"] == "found"]
+        if not found:
+            found = [d for n in astq.walk(f["body"]) if n.get("k") == "DeclStmt" for d in n["decls"] if d["type"] == "bool" and not d.get("const")]
+        if not found:
+            run.broken.append("%s: no `found` flag" % short(f))
+            continue
+        fd = found[0]["did"]
+        bparam = f["params"][2]["did"]
+
+        def is_bucket(n):
+            n = astq.strip(n)
+            return n is not None and n.get("k") == "CXXOperatorCallExpr" and n.get("oop") == "[]" and astq.strip(n["c"][1]).get("k") == "DeclRefExpr" and astq.strip(n["c"][1])["ref"]["did"] == bparam
+
+        def occupied_test(c):
+            c0 = astq.strip(c)
+            if c0.get("k") == "BinaryOperator" and c0.get("op") in ("!=", "=="):
+                for a, b in ((c0["c"][0], c0["c"][1]), (c0["c"][1], c0["c"][0])):
+                    if is_bucket(a):
+                        return (c0["op"], astq.strip(b).get("cv"), b)
+            if is_bucket(c0):
+                return ("truthy", 0, None)
+            return None
+        tests = [n for n in astq.walk(inner["body"]) if n.get("k") == "IfStmt" and occupied_test(n["cond"])]
+        fills = [n for n in astq.walk(f["body"]) if n.get("k") == "CallExpr" and (n.get("callee") or "").startswith("std::fill<") and any(
+            x.get("k") == "DeclRefExpr" and x["ref"]["did"] == bparam for x in astq.walk(n))]
+        if len(tests) != 1 or len(fills) != 1:
+            run.broken.append("%s: collision test / bucket fill not recognised (%d, %d)" % (short(f), len(tests), len(fills)))
+            continue
+        op, marker, _ = occupied_test(tests[0]["cond"])
+        fillv = astq.strip(fills[0]["c"][3]).get("cv")
+        ALLONES = (-1, 2 ** 64 - 1)
+        okm = fillv in ALLONES and marker in ALLONES and op == "!="
+        run.instance(r_accept, "%s: empty-bucket marker is invalid_type (all ones) in both the fill and the collision test" % short(f), (f["file"], tests[0]["l"]), ok=okm)
+        if not okm:
+            run.violation(r_accept, "fast_perfect_hash::hash_initialize|empty-marker",
+                          "buckets are filled with %s and tested with `%s %s`: the marker must be invalid_type in both places, any other value is a legal type id" % (fillv, op, marker), (f["file"], tests[0]["l"]))
+
+        def want(n):
+            if n.get("k") == "BinaryOperator" and n.get("op") == "=":
+                l = astq.strip(n["c"][0])
+                if l.get("k") == "DeclRefExpr" and l["ref"]["did"] == fd:
+                    return True
+                return is_bucket(l)
+            return False
+        res = {}
+        for occ in (True, False):
+            def decide(c, occ=occ):
+                t = occupied_test(c)
+                if t is None:
+                    return None
+                return occ if t[0] in ("!=", "truthy") else (not occ)
+            ps = astq.enum_paths(inner["body"], decide, want)
+            ev = set()
+            for p in ps:
+                for kind, n in p["events"]:
+                    l = astq.strip(n["c"][0])
+                    if l.get("k") == "DeclRefExpr":
+                        v = astq.strip(n["c"][1])
+                        ev.add("found=%s" % ("true" if v.get("v") else "false"))
+                    else:
+                        ev.add("bucket-write")
+            res[occ] = ev
+        oks = res[True] == {"found=false"} and res[False] == {"bucket-write"}
+        run.instance(r_accept, "%s: an occupied bucket clears `found` and is not overwritten; a free one is claimed" % short(f), (f["file"], tests[0]["l"]), ok=oks, detail={k: sorted(v) for k, v in res.items()})
+        if not oks:
+            run.violation(r_accept, "fast_perfect_hash::hash_initialize|collision-branch", "on an occupied bucket the scan does %s, on a free one %s" % (sorted(res[True]), sorted(res[False])), (f["file"], tests[0]["l"]))
+        # accept: the only normal return is `if (found) { ...; return; }` after the scan
+        byid, parent = astq.index_nodes(f)
+        rets = [n for n in astq.walk(f["body"]) if n.get("k") == "ReturnStmt"]
+        oka = len(rets) == 1
+        if oka:
+            ifs = _enclosing(parent, rets[0], ("IfStmt",))
+            c = astq.strip(ifs[0]["cond"]) if ifs else None
+            oka = c is not None and c.get("k") == "DeclRefExpr" and c["ref"]["did"] == fd and _in_subtree(ifs[0]["then"], rets[0]) and not _in_subtree(outer, rets[0]) and len(ifs) == 1
+            # hash_length = hash_max + 1 in that branch
+            oka = oka and any(n.get("k") == "BinaryOperator" and n.get("op") == "=" and (astq.refname(n["c"][0]) or "").endswith("hash_length") and
+                              astq.affine(n["c"][1], {}, lambda x: (astq.refname(x) or "").split("::")[-1] if astq.refname(x) else None) in ({"hash_max": 1, 1: 1}, {"v:hash_max": 1, 1: 1}) for n in astq.walk(ifs[0]["then"]))
+        run.instance(r_accept, "%s: parameters are accepted only when the last complete scan left `found` set; hash_length = hash_max + 1" % short(f), (f["file"], rets[0]["l"] if rets else f["line"]), ok=bool(oka))
+        if not oka:
+            run.violation(r_accept, "fast_perfect_hash::hash_initialize|accept", "the function does not return solely from `if (found)` after the scan with hash_length = hash_max + 1", (f["file"], rets[0]["l"] if rets else f["line"]))
+        # same index expression as hash_type_id; shift / table size from the same M
+        idx = [d for n in astq.walk(inner["body"]) if n.get("k") == "DeclStmt" for d in n["decls"] if d.get("init") is not None and _hash_expr(d["init"])]
+        owner = re.sub(r"::hash_initialize<.*$", "", f["name"])
+        ht = hts.get(owner)
+        if r_same:
+            he = None
+            if ht is not None:
+                for n in astq.walk(ht["body"]):
+                    if n.get("k") == "ReturnStmt":
+                        he = _hash_expr(n["c"][0])
+            oksame = len(idx) == 1 and he is not None and _hash_expr(idx[0]["init"]) == he == (("ID", "hash_mult"), "hash_shift")
+            run.instance(r_same, "%s: the search probes with the expression hash_type_id computes" % short(f), (f["file"], idx[0].get("l", f["line"]) if idx else f["line"]), ok=oksame)
+            if not oksame:
+                run.violation(r_same, "fast_perfect_hash|index-expression", "search index %s vs hash_type_id %s: both must be (id * hash_mult) >> hash_shift" % (_hash_expr(idx[0]["init"]) if idx else None, he), (f["file"], f["line"]))
+            # hash_shift = 8*sizeof(type_id) - M ; buckets.resize(1 << M)
+            shift = [n for n in astq.walk(f["body"]) if n.get("k") == "BinaryOperator" and n.get("op") == "=" and (astq.refname(n["c"][0]) or "").endswith("hash_shift")]
+            mvar = None
+            oksh = False
+            if len(shift) == 1:
+                a = astq.affine(shift[0]["c"][1])
+                ms = [k for k in (a or {}) if k != 1]
+                oksh = a is not None and a.get(1) == 64 and len(ms) == 1 and a[ms[0]] == -1
+                mvar = ms[0] if ms else None
+            sizes = [d for n in astq.walk(f["body"]) if n.get("k") == "DeclStmt" for d in n["decls"] if d.get("init") is not None and astq.strip(d["init"]).get("k") == "BinaryOperator" and astq.strip(d["init"]).get("op") == "<<"]
+            okz = False
+            if sizes and mvar:
+                sh = astq.strip(sizes[0]["init"])
+                okz = astq.affine(sh["c"][0]) == {1: 1} and astq.affine(sh["c"][1]) == {mvar: 1}
+                rs = [n for n in astq.walk(f["body"]) if n.get("k") == "CXXMemberCallExpr" and (n.get("callee") or "").endswith("::resize") and any(
+                    x.get("k") == "DeclRefExpr" and x["ref"]["did"] == bparam for x in astq.walk(n["c"][0]))]
+                okz = okz and len(rs) == 1 and astq.strip(rs[0]["c"][1]).get("k") == "DeclRefExpr" and astq.strip(rs[0]["c"][1])["ref"]["did"] == sizes[0]["did"]
+            run.instance(r_same, "%s: hash_shift = 64 - M and the bucket vector has 1 << M entries (index < size)" % short(f), (f["file"], shift[0]["l"] if shift else f["line"]), ok=oksh and okz)
+            if not (oksh and okz):
+                run.violation(r_same, "fast_perfect_hash::hash_initialize|shift-size", "hash_shift / bucket count are not 64 - M and 1 << M for the same M", (f["file"], shift[0]["l"] if shift else f["line"]))
+    # ---- checked hash
+    for f in _fn(ast, r"checked_perfect_hash<[^()]*>::hash_type_id$"):
+        idxv = [d for n in astq.walk(f["body"]) if n.get("k") == "DeclStmt" for d in n["decls"] if d.get("init") is not None and any(
+            x.get("k") == "CallExpr" and re.search(r"fast_perfect_hash<.*>::hash_type_id$", x.get("callee") or "") for x in astq.walk(d["init"]))]
+        if len(idxv) != 1:
+            run.broken.append("%s: index variable not found" % short(f))
+            continue
+        ps = astq.enum_paths(f["body"], lambda c: None, lambda n: n.get("k") == "CallExpr" and n.get("callee") == "abort")
+        ok = True
+        why = ""
+        for p in ps:
+            if p["returned"] is not None:
+                atoms = set()
+                for c, pol in p["guards"]:
+                    c0 = astq.strip(c)
+                    if c0.get("k") == "BinaryOperator" and c0.get("op") == "||" and not pol:
+                        atoms.add((astq.text(c0["c"][0]), False))
+                        atoms.add((astq.text(c0["c"][1]), False))
+                    else:
+                        atoms.add((astq.text(c0), pol))
+                texts = {t for t, pol in atoms if not pol}
+                r1 = any(re.search(r"index >= .*hash_length", t) for t in texts)
+                r2 = any(re.search(r"control\[index\] != type|operator\[\]\(control, index\) != type|\[\]\(.*control.*index\) != type", t) for t in texts)
+                if not (r1 and r2):
+                    ok = False
+                    why = "a path returns the index without both the range test and the identity test failing (guards: %s)" % sorted(atoms)
+            else:
+                if not any(n.get("callee") == "abort" for k, n in p["events"]):
+                    ok = False
+                    why = "a rejecting path does not abort"
+        run.instance(r_checked, "%s: the index is returned only when in range and control[index] is the id" % short(f), (f["file"], f["line"]), ok=ok)
+        if not ok:
+            run.violation(r_checked, "checked_perfect_hash::hash_type_id|checks", why, (f["file"], f["line"]))
+    for f in [f for f in _fn(ast, r"checked_perfect_hash<.*>::hash_initialize<") if len(f["params"]) == 2]:
+        call = [n for n in astq.walk(f["body"]) if n.get("k") == "CallExpr" and re.search(r"fast_perfect_hash<.*>::hash_initialize<", n.get("callee") or "")]
+        ok = len(call) == 1 and (astq.refname(call[0]["c"][3]) or "").endswith("::control")
+        run.instance(r_checked, "%s: the control table is the bucket vector of the accepted scan" % short(f), (f["file"], f["line"]), ok=ok)
+        if not ok:
+            run.violation(r_checked, "checked_perfect_hash::hash_initialize|control", "the checked hash does not pass `control` as the bucket vector of the search", (f["file"], f["line"]))
+    # ---- publishers
+    for f in _fn(ast, r"vptr_vector<.*>::publish_vptrs<") + _fn(ast, r"vptr_map<.*>::publish_vptrs<"):
+        loops = _idloops(f)
+        stores = [n for n in astq.walk(f["body"]) if (n.get("k") == "BinaryOperator" or (n.get("k") == "CXXOperatorCallExpr" and n.get("oop") == "=")) and n.get("op", "=") == "=" and any(
+            (astq.refname(x) or "").endswith("::vptrs") for x in astq.walk((n["c"][0] if n.get("k") == "BinaryOperator" else n["c"][1])))]
+        inside = loops and stores and all(any(_in_subtree(lp[1]["body"], s) for lp in loops) for s in stores)
+        if r_allids:
+            run.instance(r_allids, "%s publishes a v-table pointer for every id of every class" % short(f), (f["file"], f["line"]), ok=bool(inside))
+            if not inside:
+                run.violation(r_allids, "%s|id-loops" % re.sub(r"<.*", "", short(f)), "v-table pointers are not stored inside a loop over type_id_begin()..type_id_end() of every class", (f["file"], f["line"]))
+        if "vptr_vector" in f["name"] and r_publish and "cfg" in f:
+            rs = [n for n in astq.walk(f["body"]) if n.get("k") == "CXXMemberCallExpr" and (n.get("callee") or "").endswith("::resize") and any((astq.refname(x) or "").endswith("::vptrs") for x in astq.walk(n["c"][0]))]
+            hi = [n for n in astq.walk(f["body"]) if n.get("k") == "CallExpr" and (n.get("callee") or "").endswith("hash_initialize") or (n.get("k") == "CallExpr" and "::hash_initialize<" in (n.get("callee") or ""))]
+            for what, nodes, need in (("vptrs.resize", rs, 1), ("hash_initialize", hi, 0)):
+                if len(nodes) < need:
+                    run.broken.append("%s: %s call not found" % (short(f), what))
+                for n in nodes:
+                    cds = [(c, cn) for c, cn, blk in (_cdep_conds(f, n) or []) if c not in ("loop", "trace")]
+                    ok = not cds
+                    run.instance(r_publish, "%s: %s runs unconditionally on every update" % (short(f), what), (f["file"], n["l"]), ok=ok)
+                    for c, cn in cds:
+                        run.violation(r_publish, "vptr_vector::publish_vptrs|%s-conditional" % what, "%s is skipped depending on `%s`: stale hash parameters / v-table pointers of an earlier update survive" % (what, astq.text(cn) if cn else "?"), (f["file"], n["l"]))
+            # order: hash_initialize before resize before the stores; hashed index
+            if hi and rs and stores:
+                oko = hi[0]["l"] <= rs[0]["l"] <= min(s["l"] for s in stores)
+                run.instance(r_publish, "%s: hash_initialize, then resize, then the indexed stores" % short(f), (f["file"], f["line"]), ok=oko)
+                if not oko:
+                    run.violation(r_publish, "vptr_vector::publish_vptrs|order", "hash parameters are not computed before the vector is sized and filled", (f["file"], f["line"]))
